@@ -3,9 +3,11 @@ package props
 // Thin, panic-safe wrappers around the implementation under test.
 
 import (
+	"encoding/json"
 	"fmt"
 	"os"
 	"path/filepath"
+	"reflect"
 	"regexp"
 	"runtime/debug"
 	"sort"
@@ -118,10 +120,53 @@ func FlatVars(m engine.Match) map[string]string {
 	return out
 }
 
+// normLoop normalises the reported value of a named loop (iteration -> bindings):
+// iterations without any binding are dropped (the implementation also records an
+// entry for an iteration that was started but abandoned), nested loops likewise.
+func normLoop(v map[string]any) map[string]any {
+	out := map[string]any{}
+	for iter, b := range v {
+		bm, ok := b.(map[string]any)
+		if !ok {
+			out[iter] = b
+			continue
+		}
+		nb := map[string]any{}
+		for name, val := range bm {
+			if sub, isMap := val.(map[string]any); isMap {
+				nb[name] = normLoop(sub)
+			} else {
+				nb[name] = val
+			}
+		}
+		if len(nb) > 0 {
+			out[iter] = nb
+		}
+	}
+	return out
+}
+
+// NestedVars returns the named-loop variables of a match, normalised.
+func NestedVars(m engine.Match) map[string]any {
+	if m.Variables.Value == nil {
+		return nil
+	}
+	var out map[string]any
+	for k, v := range m.Variables.ToGo().(map[string]any) {
+		if sub, ok := v.(map[string]any); ok {
+			if out == nil {
+				out = map[string]any{}
+			}
+			out[k] = normLoop(sub)
+		}
+	}
+	return out
+}
+
 func SpansOf(ms engine.Matches) []Span {
 	out := make([]Span, 0, len(ms))
 	for _, m := range ms {
-		out = append(out, Span{Start: m.Offset.Start, End: m.Offset.End, Vars: FlatVars(m)})
+		out = append(out, Span{Start: m.Offset.Start, End: m.Offset.End, Vars: FlatVars(m), Nested: NestedVars(m)})
 	}
 	return out
 }
@@ -137,8 +182,20 @@ func spansEqual(a, b []Span, vars bool) bool {
 		if vars && !mapsEqual(a[i].Vars, b[i].Vars) {
 			return false
 		}
+		if vars && !(len(a[i].Nested) == 0 && len(b[i].Nested) == 0) && !reflect.DeepEqual(jsonRound(a[i].Nested), jsonRound(b[i].Nested)) {
+			return false
+		}
 	}
 	return true
+}
+
+// jsonRound makes nested maps comparable regardless of how they were built
+// (replay files hold them as decoded JSON).
+func jsonRound(v any) any {
+	data, _ := json.Marshal(v)
+	var out any
+	json.Unmarshal(data, &out)
+	return out
 }
 
 func mapsEqual(a, b map[string]string) bool {
@@ -168,6 +225,10 @@ func fmtSpans(s []Span, vars bool) string {
 				kv = append(kv, fmt.Sprintf("%s=%q", k, x.Vars[k]))
 			}
 			p += "{" + strings.Join(kv, ",") + "}"
+			if len(x.Nested) > 0 {
+				data, _ := json.Marshal(x.Nested)
+				p += string(data)
+			}
 		}
 		parts = append(parts, p)
 	}
